@@ -30,7 +30,7 @@ func coqCase(ctx *hx.Ctx, c Case, o Obs) (term, key string, nontrivial bool) {
 		term = CoqChunkAs("CChunk", c, o)
 	case "json":
 		term = coqJSONAs("CJson", c, o)
-	case "merge", "build":
+	case "merge", "build", "remote", "buildk":
 		term = "COracle " + coqObs(Obs{Class: o.Class}) // no model: the outcome class is the whole observation
 	}
 	if strings.Contains(o.Msg, "loops") {
@@ -56,12 +56,14 @@ func corpus() []Case {
 	cs = append(cs, mergeCorpus()...)
 	cs = append(cs, buildCorpus()...)
 	cs = append(cs, jsonCorpus("json")...)
+	cs = append(cs, remoteCorpus()...)
+	cs = append(cs, buildKCorpus()...)
 	cs = append(cs, treeCorpus()...)
 	return cs
 }
 
 func gen(r *hx.Rng, i int) Case {
-	switch r.Pick(3, 3, 3, 2, 2, 2, 3, 4) {
+	switch r.Pick(3, 3, 3, 2, 2, 2, 3, 2, 2, 4) {
 	case 0:
 		return genFooter(r)
 	case 1:
@@ -76,6 +78,10 @@ func gen(r *hx.Rng, i int) Case {
 		return genBuild(r)
 	case 6:
 		return genJSON(r, "json")
+	case 7:
+		return genRemote(r)
+	case 8:
+		return genBuildK(r)
 	}
 	return genTree(r)
 }
